@@ -75,13 +75,16 @@ pub fn supervise(args: &Args, level: &'static str, rule: &str, abort_key: &str, 
                     .args(std::env::args().skip(1))
                     .env("VL_CHILD", "1")
                     .env("VL_ONE_CASE", cj.to_string()),
-                std::time::Duration::from_secs(90),
+                std::time::Duration::from_secs(30),
             );
             let died = match &st {
                 Ok(Some(s)) => s.code().map(|c| !(0..=2).contains(&c)).unwrap_or(true),
-                Ok(None) => true, // still running after 90 s: killed
+                Ok(None) => true, // still running after 30 s: killed
                 Err(_) => false,
             };
+            if confirmed {
+                break; // one attributed death is enough; the others usually share its cause
+            }
             if died {
                 confirmed = true;
                 ctx.force_sample(cj.clone());
